@@ -35,10 +35,12 @@ type c02Case struct {
 	// StringLast: in a revision-3 binary payload a string packet is only ever the last packet of its request
 	// (exclusion by construction of the recorded parser finding)
 	StringLast bool
+	// Tight: maxHttpBufferSize is exactly the largest single request body / frame of the case
+	Tight bool
 }
 
 func (c c02Case) String() string {
-	return fmt.Sprintf("{%s rev%d b64=%v v3binary=%v pkts=%s split=%v frags=%v wtform=%d tail=%s}", c.Carrier, c.Rev, c.B64, c.V3Binary, pktsString(c.Pkts), c.Split, c.Frags, c.WTForm, c.Tail)
+	return fmt.Sprintf("{%s rev%d b64=%v v3binary=%v pkts=%s split=%v frags=%v wtform=%d tail=%s tight=%v}", c.Carrier, c.Rev, c.B64, c.V3Binary, pktsString(c.Pkts), c.Split, c.Frags, c.WTForm, c.Tail, c.Tight)
 }
 
 var c02Texts = []string{"", "a", "hello", "4", "0", "2probe", "5:4abc", "1:2", "12:", "b4aGVsbG8=", "bQUJD", "ünï", "😀", "a😀b€c", "日本語テキスト", "with\nnewline", "back\\slash", "\\n", "\\\\n", "quote\"'", "a:b:c", "%41+%2B&d=x", "\t\r", "{\"k\":[1,2]}", "  ", "</script>"}
@@ -141,6 +143,7 @@ func genC02(rt *rapid.T, knownScanner bool, col *Collector) c02Case {
 	if c.Carrier == "webtransport" {
 		c.WTForm = rapid.IntRange(0, 2).Draw(rt, "wtform")
 	}
+	c.Tight = rapid.IntRange(0, 2).Draw(rt, "tightLimit") == 0
 	c.Tail = rapid.SampledFrom([]string{"none", "none", "afterClose", "candidate"}).Draw(rt, "tail")
 	if c.Tail == "candidate" && c.Carrier != "polling" {
 		c.Tail = "afterClose"
@@ -156,6 +159,43 @@ func runC02(c c02Case) (fail string, stats map[string]bool) {
 	o.SetPingInterval(10 * time.Minute)
 	o.SetPingTimeout(10 * time.Minute)
 	o.SetMaxHttpBufferSize(5_000_000)
+	if c.Tight {
+		// every single body/frame fits exactly; the sum of them does not
+		limit := int64(64) // room for the tail families' own small packets and the webtransport handshake
+		switch c.Carrier {
+		case "polling", "jsonp":
+			tmp := &PollClient{O: ClientOpts{Rev: c.Rev, B64: c.B64, JSONP: c.Carrier == "jsonp", J: "3"}}
+			i, k := 0, 0
+			for i < len(c.Pkts) {
+				n := c.Split[k%len(c.Split)]
+				k++
+				if i+n > len(c.Pkts) {
+					n = len(c.Pkts) - i
+				}
+				if c.V3Binary && c.StringLast {
+					for j := 0; j < n-1; j++ {
+						if !c.Pkts[i+j].Binary {
+							n = j + 1
+							break
+						}
+					}
+				}
+				body, _ := tmp.EncodePost(c.Pkts[i:i+n], c.V3Binary)
+				if int64(len(body)) > limit {
+					limit = int64(len(body))
+				}
+				i += n
+			}
+		default:
+			for _, p := range c.Pkts {
+				if n := int64(len(encPacketFrame(c.Rev, c.B64, p).Data)); n > limit {
+					limit = n
+				}
+			}
+		}
+		o.SetMaxHttpBufferSize(limit)
+		stats["tight-limit"] = true
+	}
 	w := NewWorld(o)
 	defer w.Teardown()
 	eio := "4"
@@ -424,7 +464,7 @@ func TestC02Inbound(t *testing.T) {
 			rt.Fatalf("%v: %s", clipStr(c.String(), 800), clipStr(res.Leak, 1500))
 		}
 	})
-	req := []string{"carrier.polling.rev4", "carrier.polling.rev3", "carrier.jsonp.rev4", "carrier.jsonp.rev3", "carrier.websocket.rev4", "carrier.websocket.rev3", "carrier.webtransport.rev4", "v3-binary-payload", "multi-packet-payload", "non-ascii-text", "binary", "empty-data", "close-not-last", "post-after-close", "candidate-traffic", "traffic-after-close", "fragmented-frames", "non-minimal-length-form", ">=64KiB"}
+	req := []string{"carrier.polling.rev4", "carrier.polling.rev3", "carrier.jsonp.rev4", "carrier.jsonp.rev3", "carrier.websocket.rev4", "carrier.websocket.rev3", "carrier.webtransport.rev4", "v3-binary-payload", "multi-packet-payload", "non-ascii-text", "binary", "empty-data", "close-not-last", "post-after-close", "candidate-traffic", "traffic-after-close", "fragmented-frames", "non-minimal-length-form", ">=64KiB", "tight-limit"}
 	col.RequireClasses(t, req...)
 }
 
